@@ -211,9 +211,9 @@ class Circuit:
         """Wait until a running circuit is fully initialized."""
         await self._check_started()
         assert self._simtask is not None
-        await asyncio.wait(
-            [asyncio.create_task(self._init_done.wait()), self._simtask],
-            return_when=asyncio.FIRST_COMPLETED)
+        init_wait = asyncio.create_task(self._init_done.wait())
+        await asyncio.wait([init_wait, self._simtask], return_when=asyncio.FIRST_COMPLETED)
+        init_wait.cancel()      # do not leave it pending if the simulation task has finished first
         # after an error the task may be still busy with the cleanup
         if self._error is not None or self._simtask.done():
             if isinstance(self._error, asyncio.CancelledError):
